@@ -154,7 +154,7 @@ func jsonKeyName(key Sexp) string {
 }
 
 func (hash *SexpHash) jsonHashHelper() string {
-	str := fmt.Sprintf(`{"Atype":"%s", `, hash.TypeName)
+	str := `{"Atype":` + jsonQuote(hash.TypeName) + `, `
 
 	ko := []string{}
 	n := len(hash.KeyOrder)
